@@ -27,6 +27,7 @@ import (
 
 	kanzi "github.com/flanglet/kanzi-go/v2"
 	"github.com/flanglet/kanzi-go/v2/internal"
+	"github.com/flanglet/kanzi-go/v2/internal/simhook"
 	kio "github.com/flanglet/kanzi-go/v2/io"
 )
 
@@ -199,6 +200,9 @@ func (this *BlockDecompressor) CPUProf() string {
 }
 
 func fileDecompressWorker(tasks <-chan fileDecompressTask, cancel <-chan bool, results chan<- fileDecompressResult) {
+	simhook.Start(tasks)
+	defer simhook.Exit(tasks)
+
 	// Pull tasks from channel and run them
 	more := true
 
@@ -496,6 +500,7 @@ func (this *BlockDecompressor) Decompress() (int, uint64) {
 
 		// Create one worker per job. A worker calls several tasks sequentially.
 		for j := uint(0); j < this.jobs; j++ {
+			simhook.Spawn((<-chan fileDecompressTask)(tasks))
 			go fileDecompressWorker(tasks, cancel, results)
 		}
 
@@ -503,6 +508,10 @@ func (this *BlockDecompressor) Decompress() (int, uint64) {
 
 		// Wait for all task results
 		for i := 0; i < nbFiles; i++ {
+			for simhook.Active() && len(results) == 0 {
+				simhook.Spin("app.results", 0, 1)
+			}
+
 			result := <-results
 			read += result.read
 
@@ -618,6 +627,8 @@ func (this *fileDecompressTask) call() (int, uint64, error) {
 	}
 
 	defer output.Close()
+	output = simhook.WrapWriteCloser(output)
+	simhook.Point("app.d.output.opened", 0)
 
 	// Decode
 	log.Println("\nDecompressing "+inputName+" ...", verbosity > 1)
@@ -641,6 +652,8 @@ func (this *fileDecompressTask) call() (int, uint64, error) {
 
 		defer input.Close()
 	}
+
+	input = simhook.WrapReadCloser(input)
 
 	cis, err := kio.NewReaderWithCtx(input, this.ctx)
 
@@ -696,6 +709,8 @@ func (this *fileDecompressTask) call() (int, uint64, error) {
 			break
 		}
 	}
+
+	simhook.Point("app.d.before.close", 0)
 
 	// Close streams to ensure all data are flushed
 	// Deferred close is fallback for error paths
@@ -772,6 +787,8 @@ func (this *fileDecompressTask) call() (int, uint64, error) {
 			log.Println(msg, verbosity > 0)
 		}
 
+		simhook.Point("app.d.before.remove", 0)
+
 		// Delete input file
 		if inputName == "STDIN" {
 			log.Println("Warning: ignoring remove option with STDIN", verbosity > 0)
@@ -781,5 +798,6 @@ func (this *fileDecompressTask) call() (int, uint64, error) {
 		}
 	}
 
+	simhook.Point("app.d.done", 0)
 	return 0, uint64(decoded), err
 }
